@@ -183,6 +183,14 @@ fn cmd_check(args: &[String]) -> i32 {
         let d1 = f.run(&dcfg((workers / 2).max(1)));
         let d2 = f.run(&dcfg(workers.max(2)));
         if d1.hash_sum != d2.hash_sum || d1.evaluations != d2.evaluations {
+            for (idx, h) in &d1.index_hashes {
+                if d2.index_hashes.get(idx) != Some(h) {
+                    eprintln!("  run_index {} of family {} differs between two executions: {:016x} vs {:016x}", idx, f.name(), h, d2.index_hashes.get(idx).copied().unwrap_or(0));
+                    for (k, (scn, hash, nv)) in f.run_index(seed, tier, *idx).iter().enumerate().take(3) {
+                        eprintln!("    third execution, sub {}: trace {:016x}, {} violations, scenario {}", k, hash, nv, scn.to_string().chars().take(700).collect::<String>());
+                    }
+                }
+            }
             eprintln!(
                 "harness error: determinism self-check failed for family {} ({} runs: {:016x}/{} vs {:016x}/{})",
                 f.name(), dn, d1.hash_sum, d1.evaluations, d2.hash_sum, d2.evaluations
